@@ -107,7 +107,7 @@ def run(ck, facts, tier):
         try:
             from rules import c15
             nd, tb = list(ck.not_decided), list(ck.trusted)
-            with ck.restrict({"R15.4", "R15.1"}):          # R15.1: the collocation matrix evaluates basis i at site j for *every* site (rows = sites, columns = functions)
+            with ck.restrict({"R15.4", "R15.1", "R15.3"}):          # R15.1: the collocation matrix evaluates basis i at site j for *every* site (rows = sites, columns = functions); R15.3: the evaluator sums all n functions
                 c15.run(ck, facts, tier)
             ck.not_decided[:], ck.trusted[:] = nd, tb
         finally:
